@@ -484,6 +484,10 @@ class Engine:
             if is_const(x) and not is_const(y):
                 op, x, y = SWAP[op], y, x
             if is_const(y):
+                if x[0] == "bin" and x[1] in ("Sub", "SubUnchecked") and is_const(x[3]) and counter_read(x[2]) is not None:
+                    # (count - k) op c  <=>  count op (c + k)   (no wrap: count >= k on every such read in practice)
+                    y = const(int(y[1]) + int(x[3][1]))
+                    x = x[2]
                 g = counter_read(x)
                 if g is not None:
                     site, box, field = g
